@@ -34,7 +34,8 @@ COMPONENTS = {"real": ["robotools BaseWorklist.save/__enter__/__exit__/__str__ a
 ASSUMPTIONS = ["the only OS-level I/O error injected is a full disk (RLIMIT_FSIZE: short write, then EFBIG); after it nothing is claimed about the file, only that save()/__exit__ did not return as if it had succeeded",
                "record alphabet: printable Latin-1, tab, and the chr(48)..chr(175) range of EVO well selections (no CR/LF inside a record)"]
 
-TEXTS = ["hello", "µL of Müller's buffer", "ÿ±½ end", "  padded  ", "a\nb\n\nc", "x" * 60, "tab\there", "semi-colon free", "€ not latin-1"]
+TEXTS = ["hello", "µL of Müller's buffer", "ÿ±½ end", "  padded  ", "a\nb\n\nc", "x" * 60, "tab\there", "semi-colon free",
+         "windows\r\nline ends\r\n", "mixed\r\nline\nends", "  indented\r\n    more\r\n", "€ not latin-1"]
 GOOD_NAMES = ["out.gwl", "OUT.GWL", "my worklist.gwl", "a.b.gwl", "second.Gwl", "µ.gwl", "sub dir/in dir.gwl"]
 BAD_NAMES = ["out.txt", "worklist", "gwl", "out.gw", "out.csv", "plate7.gwl.d/notes.txt", "run.GWL/out", "plate_3", "run7.csv"]
 
@@ -134,6 +135,11 @@ def execute(spec, count_lines=False):
 
         def check_str(i, op):
             recs = [str(r) for r in wl]
+            # "one per line": a record that carries a line break of its own is two lines in the file (and shows as
+            # extra lines when the file is read back and split at line breaks)
+            bad = next((r for r in recs if "\n" in r or "\r" in r), None)
+            if bad is not None:
+                fail("C17.one_per_line", i, op, "ok", f"the record {bad[:40]!r} contains a line break")
             exp = "\n".join(recs)
             try:
                 s1, s2 = str(wl), repr(wl)
